@@ -420,6 +420,10 @@ func c06(tier string) int {
 	run.Set("exhaustive", true)
 	run.Set("rule", "for histories H1 (first use, growth, refresh of one log) and H2 (two logs interleaved, a refused fork growth and a refused same-size fork between the writes): the worker process is SIGKILLed before and after EVERY database/sql driver operation (open/begin/prepare/query/next/rows-close/stmt-close/exec/commit/rollback, numbered by a wrapping driver) of a crash-free reference run on a file-backed SQLite store; a FRESH process reopens the store (SQLite recovers from the hot journal) and reports the state and probes; additionally a kill at every file syscall (pwrite64/fsync/fdatasync/unlink/ftruncate) on the database and its journal via strace injection. Oracle: stored rows are complete validly cosigned notes; in-flight log = last acknowledged or being written, others exactly last acknowledged; restarted witness refuses forks and accepts growth. distinct_nontrivial = distinct crash points")
 	run.Assumption("process kill, not power loss: everything the kernel accepted survives; torn sectors and lost un-fsynced writes are not explored")
+	// Fault leg: an update is acknowledged only when its commit succeeded
+	// (every single SQL-driver / interface fault in the C07 histories; an
+	// acknowledged update must be what the table holds).
+	runFaults(run, "C06", tier, false)
 	return run.Finish()
 }
 
